@@ -37,7 +37,7 @@ def run(ctx):
     rng = ctx.rng
     reqs = []
     meta = []
-    G = ctx.budget(4, 8) if not ctx.search_mode else 6
+    G = (4 if ctx.tier == "quick" else 8) if not ctx.search_mode else 6     # a grid extent, not an iteration count
     grids = list(itertools.product(range(1, G + 1), repeat=3))
     extra = []
     for _ in range(ctx.budget(150, 3000)):
